@@ -41,6 +41,49 @@ type eopt15 struct {
 	pay  int
 }
 
+// hdr15: what a client's OPT pseudo-record carries in its TTL field besides DO: the extended-rcode byte, VERSION and the
+// Z bits. The statement speaks of "the client's query had one [OPT]": whatever these fields are, the record is one.
+type hdr15 struct {
+	ver, ext uint8
+	z        uint16 // 15 bits
+}
+
+func genHdr15(r *Run) hdr15 {
+	var h hdr15
+	if r.Rng.Intn(2) == 0 {
+		return h // the ordinary client: version 0, nothing else set
+	}
+	if r.Rng.Intn(3) != 0 {
+		h.ver = []uint8{1, 1, 2, 255, uint8(r.Rng.Intn(256))}[r.Rng.Intn(5)]
+	}
+	if r.Rng.Intn(3) == 0 {
+		h.ext = []uint8{1, 0xff, uint8(r.Rng.Intn(256))}[r.Rng.Intn(3)]
+	}
+	if r.Rng.Intn(3) == 0 {
+		h.z = []uint16{1, 0x4000, 0x7fff, uint16(r.Rng.Intn(0x8000))}[r.Rng.Intn(4)]
+	}
+	return h
+}
+
+func (h hdr15) zero() bool { return h == hdr15{} }
+
+// apply writes the fields into the OPT's TTL (RFC 6891 6.1.3: ext-rcode | version | DO | Z), leaving DO as it is
+func (h hdr15) apply(o *dns.OPT) {
+	o.Hdr.Ttl = o.Hdr.Ttl&0x8000 | uint32(h.ext)<<24 | uint32(h.ver)<<16 | uint32(h.z&0x7fff)
+}
+
+// op: "" for the ordinary header, else ":<version>:<ext-rcode byte>:<z>" (appended to the client OPT of an op line)
+func (h hdr15) op() string {
+	if h.zero() {
+		return ""
+	}
+	return fmt.Sprintf(":%d:%d:%d", h.ver, h.ext, h.z)
+}
+
+func (h hdr15) String() string {
+	return fmt.Sprintf("version=%d ext-rcode-byte=%#x z=%#x", h.ver, h.ext, h.z)
+}
+
 func mkOpt15(e eopt15) dns.EDNS0 {
 	switch e.code {
 	case dns.EDNS0SUBNET:
@@ -348,8 +391,13 @@ func cacheLife15(r *Run, it int) {
 			for _, e := range copts {
 				clientEcs = clientEcs || e.code == dns.EDNS0SUBNET
 			}
+			hd := genHdr15(r)
+			hd.apply(o)
+			if hd.ver != 0 {
+				r.Count("life:client-opt-version!=0")
+			}
 			q.Extra = append(q.Extra, o)
-			cOp = fmt.Sprintf("%d:%s:%s", size, b01(cDo), showOpts15(copts))
+			cOp = fmt.Sprintf("%d:%s:%s%s", size, b01(cDo), showOpts15(copts), hd.op())
 		}
 		// ---- what the upstream will do if it is reached without a response
 		out := upOut15{kind: []string{"ans", "ans", "ans", "ans", "ans", "ans", "none", "err"}[r.Rng.Intn(8)]}
@@ -384,7 +432,7 @@ func cacheLife15(r *Run, it int) {
 		history = append(history, fmt.Sprintf("exchange %d via %s: client OPT %s, upstream %s", k+1, via, cOp, out.op()))
 		fd := map[string]any{"chain": chainDesc, "question": fmt.Sprintf("%s type %d cd=%v", name, qtype, cd), "exchanges_so_far": append([]string(nil), history...),
 			"failing_exchange": k + 1, "upstream_answered_in_this_exchange": answered,
-			"format": "client OPT = size:DO:code.payload+...; upstream = a:rcode:answers:o=code.payload+...:followed-by-glue"}
+			"format": "client OPT = size:DO:code.payload+...[:version:ext-rcode-byte:z unless all 0]; upstream = a:rcode:answers:o=code.payload+...:followed-by-glue"}
 		r.Eval(chainDesc+"|"+strings.Join(txOps, " "), hasC || out.hasOpt)
 		r.Count("life:exchange")
 		if answered {
